@@ -18,7 +18,9 @@ What is extracted (class `Generator` only)
    generator methods each branch can return (lambdas / local defs / dict values resolved to the
    `self.gen_*` they call; functions of `src.generators.generators` appear as "const:<name>").
  the cut of `gen_new`: the `self.depth > cfg.limits.max_depth * K` comparison inside a
-   `gen_bottom` argument (operator and K).
+   `gen_bottom` argument (operator and K) AND its guard: the other conjuncts of the disjunct the comparison
+   stands in, read as exemptions `not X` (`cut_exempt`; the Lean side accepts exactly
+   `<type argument>.is_primitive()`: the cut applies to every non-primitive argument type).
  flattened, per dispatched generator and per region root (the declaration-level methods
    BOUNDARY + entry points): every call path through helper methods that ends in a
    `generate_expr` call, with the summed depth offset, the number of offset>0 edges on the path,
@@ -116,6 +118,37 @@ def find_cut(e):
     return None
 
 
+def cut_exempt(e):
+    """the guard of the depth cut inside a `gen_bottom` argument, read as
+    `A or … or (self.depth > K * max_depth and not X1 and not X2 …)`: the texts [X1, X2, …] — a child for which
+    one of them holds is NOT cut.  Anything else (a conjunct that is not a negation, a comparison that is not a
+    conjunct of a top-level disjunct) is returned as "?:<text>", which no table accepted by `SkeletonOK` contains."""
+    if e is None or find_cut(e) is None:
+        return []
+
+    def has_cmp(x):
+        return any(isinstance(n, ast.Compare) and is_self_depth(n.left) for n in ast.walk(x))
+    disjuncts = e.values if isinstance(e, ast.BoolOp) and isinstance(e.op, ast.Or) else [e]
+    out = []
+    for d in disjuncts:
+        if not has_cmp(d):
+            continue
+        if isinstance(d, ast.Compare):
+            continue
+        if isinstance(d, ast.BoolOp) and isinstance(d.op, ast.And) and \
+                any(isinstance(v, ast.Compare) and is_self_depth(v.left) for v in d.values):
+            for v in d.values:
+                if isinstance(v, ast.Compare) and is_self_depth(v.left):
+                    continue
+                if isinstance(v, ast.UnaryOp) and isinstance(v.op, ast.Not):
+                    out.append(unparse(v.operand))
+                else:
+                    out.append("?:" + unparse(v))
+        else:
+            out.append("?:" + unparse(d))
+    return out
+
+
 def analyse(mi, methods):
     """abstract interpretation of the depth counter over the body of one method"""
     fn = mi.fn
@@ -163,7 +196,7 @@ def analyse(mi, methods):
                     break
             mi.sites.append({
                 "callee": c, "line": e.lineno, "off": st["off"], "ol": olt,
-                "gen_bottom": unparse(gbe), "cut": find_cut(gbe), "targ": unparse(targ),
+                "gen_bottom": unparse(gbe), "cut": find_cut(gbe), "cut_exempt": cut_exempt(gbe), "targ": unparse(targ),
                 "kwargs": [kw.arg for kw in e.keywords if kw.arg], "guard": g or "", "deferred": dfr})
 
     def block(stmts, st):
@@ -426,7 +459,7 @@ def flatten(methods, reach, root, problems):
             if c == "generate_expr":
                 out.append({"path": ">".join(p2), "line": s["line"], "off": o2, "cnt": c2, "ol": ol2,
                             "targ": s["targ"], "void": void_of(m, s["targ"]), "cut": s["cut"],
-                            "gen_bottom": s["gen_bottom"]})
+                            "cut_exempt": s["cut_exempt"], "gen_bottom": s["gen_bottom"]})
             elif c in BOUNDARY:
                 bcalls.append(">".join(p2) + ">" + c)
             elif c in stack or c == root:
@@ -484,9 +517,9 @@ def build():
 
 def fsite(s):
     cut = "none" if not s["cut"] else "(some (%s, %d))" % (lean_str(s["cut"][0]), s["cut"][1])
-    return ("{ path := %s, line := %d, off := %d, cnt := %d, ol := %s, targ := %s, void := %s, cut := %s }"
+    return ("{ path := %s, line := %d, off := %d, cnt := %d, ol := %s, targ := %s, void := %s, cut := %s, cutExempt := %s }"
             % (lean_str(s["path"]), s["line"], s["off"], s["cnt"], lean_str(s["ol"]), lean_str(s["targ"]),
-               lean_str(s["void"]), cut))
+               lean_str(s["void"]), cut, lean_list([lean_str(x) for x in s.get("cut_exempt", [])])))
 
 
 def render(sk):
